@@ -345,12 +345,47 @@ def body(r):
             assignment = [(o, healthy[o][vi]) for o, vi in row]
             dims = rr.choice(dims_list)
             pjobs.append({"world": make_world(seed, sampler, dims, assignment, k),
-                          "labels": [f"{sampler}:{label(o, v)}" for o, v in assignment], "kind": "pair"})
+                          "labels": [f"{sampler}:{label(o, v)}" for o, v in assignment], "kind": "pair",
+                          "sampler": sampler, "dims": dims, "k": k,
+                          "row": [[o, healthy[o].index(v)] for o, v in assignment],
+                          "healthy": None})
+            pjobs[-1]["_assignment"] = assignment
             k += 1
     presults = r.map(option_job, pjobs, "option-pairs")
     for res in presults:
         if res.get("harness_error"):
             raise runner.Harness(json.dumps(res["harness_error"], default=repr)[:3000])
+    # reduce every failing combination to a minimal failing subset of its options (same failure signature), so
+    # that the finding is identified by the options that matter and not by the row the covering array put them in
+    import itertools
+
+    red_jobs = []
+    for pj, res in zip(pjobs, presults):
+        if res["verdict"] in ("OK-COMPLETED", "OK-REJECTED", "INCONCLUSIVE-SLOW"):
+            continue
+        asg = pj["_assignment"]
+        if len(asg) <= 2:
+            continue
+        for size in (2, 3):
+            if size >= len(asg):
+                break
+            for sub in itertools.combinations(range(len(asg)), size):
+                sub_asg = [asg[i] for i in sub]
+                red_jobs.append({"world": make_world(seed, pj["sampler"], pj["dims"], sub_asg, pj["k"]),
+                                 "labels": [f"{pj['sampler']}:{label(o, v)}" for o, v in sub_asg], "kind": "reduce",
+                                 "parent": id(pj), "size": size})
+    red_results = r.map(option_job, red_jobs, "reduce-failing-rows") if red_jobs else []
+    minimal = {}
+    for rj, rres in zip(red_jobs, red_results):
+        if rres.get("harness_error"):
+            continue
+        minimal.setdefault(rj["parent"], []).append((rj["size"], rj["labels"], sig_of(rres), rres["verdict"]))
+    for pj, res in zip(pjobs, presults):
+        cands = sorted((c for c in minimal.get(id(pj), []) if c[2] == sig_of(res)), key=lambda c: (c[0], c[1]))
+        if cands:
+            res["minimal_labels"] = cands[0][1]
+    for pj in pjobs:
+        pj.pop("_assignment", None)
     jobs = jobs + pjobs
     results = results + presults
     tally = {}
@@ -371,7 +406,7 @@ def body(r):
         labels = res["labels"]
         # attribute a failing combination to a failing single it contains (same failure signature)
         owner = [lb for lb in labels if sig_of(res) in single_fail.get(lb, ())]
-        key_labels = owner[:1] if owner else labels
+        key_labels = owner[:1] if owner else res.get("minimal_labels", labels)
         if v == "NO-PROGRESS":
             # a stuck population loop is identified by the loop and the cause, whatever options led to it
             key = f"C20|NO-PROGRESS|{sig_of(res)[1]}"
